@@ -21,6 +21,8 @@
 #define private public
 #include <cocls/generator.h>
 #include <cocls/future.h>
+#include <cocls/with_allocator.h>
+#include <cocls/coro_storage.h>
 #undef protected
 #undef private
 
@@ -32,7 +34,8 @@ template <bool A>
 static void emit(Ctx<A> &c, long st, Result r, const vh::alloc_mark &m) {
     long done = c.gen ? (c.gen->done() ? 1 : 0) : 2;
     if (c.gen && !c.outstanding && (bool)*c.gen == c.gen->done()) done = 9;  // operator bool must be !done()
-    std::vector<long> v{st, r.kind, r.val, done, m.news(), m.dels()};
+    std::vector<long> v{st, r.kind, r.val, done, m.news(), m.dels(), c.cnt_report};
+    c.cnt_report = 0;
     for (int i = 0; i < c.sink->nev; i++) v.push_back(c.sink->ev[i]);
     c.sink->nev = 0;
     vh::print_obs(v);
@@ -40,7 +43,7 @@ static void emit(Ctx<A> &c, long st, Result r, const vh::alloc_mark &m) {
 template <bool A>
 static void reject(Ctx<A> &c) {
     c.sink->nev = 0;
-    vh::print_obs({1, 0, 0, 0, 0, 0});
+    vh::print_obs({1, 0, 0, 0, 0, 0, 0});
 }
 
 template <bool A>
@@ -58,7 +61,8 @@ static void finish_access(Ctx<A> &c, bool settled, const vh::alloc_mark &m) {
 }
 
 template <bool A>
-static void run_case(const vh::Case &cs, Worker &w) {
+static void run_case(const vh::Case &cs, Worker &w, bool storage = false) {
+    reusable_storage stor;   // engine gens: the frame lives here (must outlive the generator)
     Ctx<A> c;
     for (auto &op : cs.ops) {
         Watchdog::inst().tick();
@@ -69,17 +73,34 @@ static void run_case(const vh::Case &cs, Worker &w) {
                 c.created = true;
                 c.script.assign(op.begin() + 1, op.end());
                 vh::alloc_mark m;
+                if constexpr (!A) {
+                    if (storage) {
+                        {   // warm-up: a first generator sizes the storage, so the measured one must reuse it
+                            vh::t_count = false;
+                            Gen<A> warm(body0s(stor, &c, c.script.data(), (int)c.script.size()));
+                            vh::t_count = true;
+                        }
+                        vh::alloc_mark m2;
+                        c.gen.emplace(body0s(stor, &c, c.script.data(), (int)c.script.size()));
+                        emit(c, 0, Result{}, m2);
+                        break;
+                    }
+                }
                 c.gen.emplace(body<A>(&c, c.script.data(), (int)c.script.size()));
                 emit(c, 0, Result{}, m);
                 break;
             }
             case 1: {
-                if (op.size() != 3 || !c.gen || c.outstanding || op[1] < 0 || op[1] > 5 || (A && op[1] == 1)) { reject(c); break; }
+                if (op.size() != 3 || !c.gen || c.outstanding || op[1] < 0 || op[1] > 6 || (A && op[1] == 1)) { reject(c); break; }
                 int style = (int)op[1];
                 c.argv = (int)op[2];
                 c.res_ready = false;
                 vh::alloc_mark m;
-                if (style == 3 || style == 4) {
+                if (style == 6) {
+                    c.on_thread = false;
+                    c.sub_access();
+                    finish_access(c, true, m);
+                } else if (style == 3 || style == 4) {
                     c.on_thread = false;
                     c.async_access(style);
                     finish_access(c, true, m);
@@ -112,6 +133,7 @@ static void run_case(const vh::Case &cs, Worker &w) {
                 }
                 bool settled = true;
                 if (c.on_thread) settled = w.recheck();
+                c.sub_poll();
                 finish_access(c, settled, m);
                 break;
             }
@@ -140,6 +162,7 @@ static void run_case(const vh::Case &cs, Worker &w) {
             p(0);
             bool settled = true;
             if (c.on_thread) settled = w.recheck();
+            c.sub_poll();
             if (settled && c.res_ready) c.outstanding = false;
         }
         if (c.outstanding) {
@@ -193,6 +216,7 @@ int main(int argc, char **argv) {
         std::printf("CASE %s\n", cs.name.c_str());
         std::fflush(stdout);
         if (cs.engine == "gen1") run_case<true>(cs, w);
+        else if (cs.engine == "gens") run_case<false>(cs, w, true);
         else run_case<false>(cs, w);
         std::printf("END\n");
         std::fflush(stdout);
